@@ -86,6 +86,9 @@ Definition log_key (f : frame) : bytes * bytes :=
 Definition frame_reqid (f : frame) : bytes :=
   match f with FLog _ _ r _ => r | FExc _ _ r _ => r | _ => [] end.
 
+Definition log_extras (f : frame) : kvlist :=
+  match f with FLog _ _ _ e => e | _ => [] end.
+
 Definition spec_ok (i : input) (o : obs) : bool :=
   match o_streams o with
   | [s] =>
@@ -97,6 +100,9 @@ Definition spec_ok (i : input) (o : obs) : bool :=
       && forallb is_log logs
       && list_eqb (pair_eqb beqb beqb) (map log_key logs)
            (map (fun m => (lg_level m, lg_msg m)) (filter (admitted (i_loglevel i)) (i_logs i)))
+      (* ... each carrying exactly the extras it was raised with (as they were at that moment) *)
+      && list_eqb kv_eqb (map log_extras logs)
+           (map (fun m => kv_sort (lg_extras m)) (filter (admitted (i_loglevel i)) (i_logs i)))
       (* every log and exception batch echoes the request id *)
       && forallb (fun f => negb (is_log f || is_exc f) || beqb (frame_reqid f) (i_reqid i)) fs
       (* exactly one result batch holding the value, or exactly one exception and no result *)
